@@ -6,6 +6,11 @@ HERE = os.path.dirname(os.path.dirname(os.path.abspath(__file__)))
 
 CHECKS = {
  # id: (design section, claim text, level note, technique)
+ "C14": ("5 C14",
+  "Contract on txtar.NeedsQuote: the result is true exactly when a file marker line starts at some line start of the body (for every byte string, with or without final newline); "
+  "discharged through findFileMarker's contract (loop invariant: no marker before the scan position).",
+  "assumed: extern contracts for bytes.* and strings.TrimSpace; Quote/Unquote clauses are not yet under contract and are not claimed by this check",
+  "contract-based deductive verification: VCs over go/ssa with a loop invariant, discharged by z3/cvc5; counterexamples replayed with go test -overlay"),
  "C03": ("5 C03",
   "Contracts on txtar.isMarker (and, as they are added, findFileMarker/fixNL/Parse) are discharged by SMT for every byte string: "
   "every index/slice expression is in bounds (Parse cannot panic there) and the results equal the marker vocabulary written from the format text.",
